@@ -20,6 +20,7 @@ type cfg struct {
 	P   uint32
 	CF  uint32
 	I   uint32 // StatIntervalInMs: 0 (the default 1000 ms) or a shorter interval; the threshold is per interval
+	Thr bool   // control behaviour throttling (no queueing) instead of reject: the warm-up threshold paces the requests
 	Pre int    // family of the rule the resource carried before (0 = none): the warm-up rule replaces it by a reload
 }
 
@@ -69,6 +70,9 @@ func loadWarm(t *rapid.T, c cfg) {
 		}
 	}
 	r := &flow.Rule{Resource: "w", Threshold: c.T, TokenCalculateStrategy: flow.WarmUp, ControlBehavior: flow.Reject, WarmUpPeriodSec: c.P, WarmUpColdFactor: c.CF, StatIntervalInMs: c.I}
+	if c.Thr {
+		r.ControlBehavior, r.MaxQueueingTimeMs = flow.Throttling, 0
+	}
 	if _, err := flow.LoadRules([]*flow.Rule{r}); err != nil {
 		t.Fatalf("LoadRules: %v", err)
 	}
@@ -132,6 +136,13 @@ func TestWarmUpEnvelope(t *testing.T) {
 		}
 		warm := int(2*g.P + 2)
 		scenario := rapid.IntRange(0, 5).Draw(t, "scenario")
+		// pacing variant (scenarios 0 and 1, default interval, integral threshold >= 2): requests are spaced by 1/threshold, so an
+		// aligned second holds at most floor(T)+1 and, under saturating demand, at least floor(T)-1 admitted requests
+		slack := 0
+		if (scenario == 0 || scenario == 1) && g.iv() == 1000 && g.T >= 2 && g.T == math.Floor(g.T) && rapid.IntRange(0, 3).Draw(t, "pacing") == 0 {
+			g.Thr, slack = true, 1
+			c.Class("warm-up-with-pacing-behaviour")
+		}
 		if slowShape && exP28 {
 			// only the clause "never above the threshold" is asserted for this shape (arbitrary demand phases)
 			scenario = 3
@@ -146,18 +157,18 @@ func TestWarmUpEnvelope(t *testing.T) {
 			per := demand(0, warm+4, sat)
 			c.Op("admitted/s %v", per)
 			for s, n := range per {
-				if n > floorT {
+				if n > floorT+slack {
 					t.Fatalf("second %d: admitted %d > floor(threshold %v) (admitted/s %v)", s, n, g.T, per)
 				}
 			}
-			if per[0] > coldBound && !(starveShape && exP9) {
+			if per[0] > coldBound+slack && !(starveShape && exP9) {
 				t.Fatalf("cold start: first second admitted %d > ceil(T/coldFactor)+1 = %d", per[0], coldBound)
 			}
 			if starveShape && exP9 {
 				c.Excluded("P9")
 			} else {
 				for s := warm * 1000 / ivMs; s < len(per); s++ {
-					if per[s] != floorT {
+					if per[s] != floorT && !(g.Thr && per[s] >= floorT-1) {
 						t.Fatalf("after %d s of saturating demand (period %d s): second %d admitted %d, full threshold is floor(%v) (admitted/s %v)", warm, g.P, s, per[s], g.T, per)
 					}
 				}
@@ -168,11 +179,11 @@ func TestWarmUpEnvelope(t *testing.T) {
 			idle := int(2*g.P+2) + rapid.IntRange(0, 5).Draw(t, "extraIdle")
 			per := demand(warm+2+idle, 2, sat)
 			c.Op("after idle %ds admitted/s %v", idle, per)
-			if per[0] > coldBound && !(starveShape && exP9) {
+			if per[0] > coldBound+slack && !(starveShape && exP9) {
 				t.Fatalf("after an idle gap of %d s the first second admitted %d > ceil(T/coldFactor)+1 = %d", idle, per[0], coldBound)
 			}
 			for s, n := range per {
-				if n > floorT {
+				if n > floorT+slack {
 					t.Fatalf("second %d after idle: admitted %d > floor(T)", s, n)
 				}
 			}
@@ -390,7 +401,7 @@ func sortInt64(a []int64) {
 // P9b (repaired): Threshold 0.5, period 1, cold factor 3 made the threshold NaN = unlimited admission.
 func TestP_RegressP9NaN(t *testing.T) {
 	hx.Plain(t, func(c *hx.Case) {
-		for _, g := range []cfg{{0.5, 1, 3, 0, 0}, {0, 5, 0, 0, 0}, {1, 1, 10, 0, 0}} {
+		for _, g := range []cfg{{T: 0.5, P: 1, CF: 3}, {T: 0, P: 5, CF: 0}, {T: 1, P: 1, CF: 10}} {
 			hx.Reset(hx.Epoch)
 			flow.LoadRules([]*flow.Rule{{Resource: "w", Threshold: g.T, TokenCalculateStrategy: flow.WarmUp, ControlBehavior: flow.Reject, WarmUpPeriodSec: g.P, WarmUpColdFactor: g.CF}})
 			per := demand(0, 3, 10)
